@@ -8,20 +8,20 @@ mkdir -p $s
 cp $d/patch.diff $s/patch.diff
 cp $d/demo.sh $s/demo.sh 2>/dev/null
 cp $d/NOTES.md $s/NOTES.md 2>/dev/null
-cp $d/patch.diff /tmp/w8/stage_$id.diff
+cp $d/patch.diff /tmp/w9/stage_$id.diff
 export CARGO_TARGET_DIR=$d/target
 cd $d || exit 2
-git checkout -q -- src && git apply /tmp/w8/stage_$id.diff || { echo "patch does not apply"; exit 2; }
+git checkout -q -- src && git apply /tmp/w9/stage_$id.diff || { echo "patch does not apply"; exit 2; }
 B="CARGO_PROFILE_RELEASE_LTO=false CARGO_PROFILE_RELEASE_CODEGEN_UNITS=16 CARGO_PROFILE_RELEASE_OPT_LEVEL=1"
 env $B cargo build --offline --release --bin s4 > $d/build_with.log 2>&1 || { echo "build with change failed"; exit 2; }
-cp $d/target/release/s4 /tmp/w8/stage_$id.s4.with
+cp $d/target/release/s4 /tmp/w9/stage_$id.s4.with
 git checkout -q -- src
 env $B cargo build --offline --release --bin s4 > $d/build_without.log 2>&1 || { echo "build without change failed"; exit 2; }
-cp $d/target/release/s4 /tmp/w8/stage_$id.s4.without
+cp $d/target/release/s4 /tmp/w9/stage_$id.s4.without
 out=$s/CONFIRM.txt; : > $out
-bash $s/demo.sh /tmp/w8/stage_$id.s4.with > $d/demo_with.log 2>&1; echo "demo with change: exit $?" >> $out
-bash $s/demo.sh /tmp/w8/stage_$id.s4.without > $d/demo_without.log 2>&1; echo "demo without change: exit $?" >> $out
-git apply /tmp/w8/stage_$id.diff
+bash $s/demo.sh /tmp/w9/stage_$id.s4.with > $d/demo_with.log 2>&1; echo "demo with change: exit $?" >> $out
+bash $s/demo.sh /tmp/w9/stage_$id.s4.without > $d/demo_without.log 2>&1; echo "demo without change: exit $?" >> $out
+git apply /tmp/w9/stage_$id.diff
 cargo nextest run --workspace --no-fail-fast --test-threads 8 --offline > $d/suite.log 2>&1
 grep -E "^ +Summary \[" $d/suite.log >> $out
 grep "FAIL \[" $d/suite.log | sed 's/.*super_speedy_syslog_searcher //' | sort -u > $d/suite_fails.txt
@@ -35,5 +35,5 @@ now = set(n.split(' ', 1)[-1] if ' ' in n else n for n in now)
 extra = sorted(n for n in now if not any(n == a or a.endswith(n) or n.endswith(a) for a in af))
 print('failing tests not in the baseline always-fail set:', extra[:10], '(count %d)' % len(extra))
 PY
-rm -rf $d/target /tmp/w8/stage_$id.s4.with /tmp/w8/stage_$id.s4.without /tmp/w8/stage_$id.diff
+rm -rf $d/target /tmp/w9/stage_$id.s4.with /tmp/w9/stage_$id.s4.without /tmp/w9/stage_$id.diff
 cat $out
